@@ -453,7 +453,12 @@ class StreamReader:
             self.set_read_chunk_size(sys.maxsize)
             blocks = []
             while True:
-                block = await self.readany()
+                try:
+                    block = await self.readany()
+                except BaseException:
+                    # Don't lose what was already taken out of the buffer.
+                    self._unread_data(b"".join(blocks))
+                    raise
                 if not block:
                     break
                 blocks.append(block)
